@@ -36,6 +36,7 @@ func RearrangeFuncs(src []byte, filename ...string) ([]byte, error) {
 	var s scanner.Scanner
 	s.Init(f, src, nil, scanner.ScanComments)
 	stmts := splitStmts(&s)
+	attachTrailingComments(stmts, f)
 	first := firstNonDecl(stmts)
 	if first < 0 { // no non-decl stmt
 		return src, nil
@@ -57,6 +58,33 @@ func RearrangeFuncs(src []byte, filename ...string) ([]byte, error) {
 		}
 	}
 	return ret, nil
+}
+
+// attachTrailingComments leaves a comment that follows a statement on the same
+// line with that statement: it is removed from the front of the next statement,
+// whose chunk then starts behind the comment.
+func attachTrailingComments(stmts []aStmt, f *token.File) {
+	for i := 1; i < len(stmts); i++ {
+		prev := stmts[i-1].words
+		last := -1
+		for k := len(prev) - 1; k >= 0; k-- {
+			if prev[k].tok != token.SEMICOLON && prev[k].tok != token.COMMENT {
+				last = k
+				break
+			}
+		}
+		if last < 0 {
+			continue
+		}
+		words := stmts[i].words
+		for len(words) > 1 && words[0].tok == token.COMMENT && f.Line(words[0].pos) == f.Line(prev[last].pos) {
+			words = words[1:]
+		}
+		if len(words) != len(stmts[i].words) {
+			stmts[i].words = words
+			stmts[i].tok, stmts[i].at = tokOf(words)
+		}
+	}
 }
 
 func codeOf(src []byte, base, i int, rest []aStmt) []byte {
